@@ -68,6 +68,27 @@ def guardMprod (x : Sh) (mode cols : Nat) : Outcome :=
   if x.isTTM then .err .IncompatibleTypes
   else if x.N.getD mode 0 ≠ cols then .err .ShapeMismatch else .ok
 
+/-- replace position `k` of a list -/
+def setNat : List Nat → Nat → Nat → List Nat
+  | [], _, _ => []
+  | _ :: xs, 0, v => v :: xs
+  | x :: xs, k+1, v => x :: setNat xs k v
+
+/-- the per-pair loop of the list form: `fm` holds `(mode, rows, cols)` of each factor matrix; the mode sizes are updated as the loop
+    proceeds (a mode may be listed twice); a position outside the train is Python's `IndexError` -/
+def mprodLoop : List Nat → List (Nat × Nat × Nat) → Outcome
+  | _, [] => .ok
+  | N, (mode, rows, cols) :: rest =>
+    if mode ≥ N.length then .err .Other
+    else if N.getD mode 0 ≠ cols then .err .ShapeMismatch
+    else mprodLoop (setNat N mode rows) rest
+
+/-- `x.mprod([F_1, …], [mode_1, …])` (after the repair: lists of different lengths are rejected) -/
+def guardMprodList (x : Sh) (nModes : Nat) (fm : List (Nat × Nat × Nat)) : Outcome :=
+  if x.isTTM then .err .IncompatibleTypes
+  else if fm.length ≠ nModes then .err .InvalidArguments
+  else mprodLoop x.N fm
+
 /-- `pad(x, padding)` -/
 def guardPad (d npad : Nat) : Outcome := if npad > d then .err .InvalidArguments else .ok
 
